@@ -19,6 +19,15 @@ CHECKS = {
  "C05": dict(engine="layout", design="5 C05", technique="TLA+ TABEAM/EEAM writer models, DeclaredCountIsBlockCount and BlockCensus invariants by TLC; replay through writeTABEAM*, tabulation classes, .ini and CLI with exact %f oracle",
    text="Declared function count = number of blocks = n(n+5)/2 or 3n(n+1)/2; one pair block per unordered pair (zero-filled, either orientation), embe/dens census, block headers n/0/(n-1)step and n values at i*step.",
    note="Trusted: keyword-based TABEAM reader model."),
+ "C06": dict(engine="forms", design="5 C06", technique="TLA+ binding machine of the four access routes (Builtin.tla: RoutesAgree, PotableArityChecked) checked by TLC; exact rational denotations, special points and signatures computed by TLC and replayed through all four routes of the real code (bitwise route agreement, exact closed forms, exact relations)",
+   text="Signatures from the reference manual; for constant, zero, polynomial (orders 0..8), exponential (integer and half-integer n), hbnd, lj, coul, buck(A=0) the exact rational value for parameter vectors with pairwise distinct entries (incl. zero and negative) at rational r; exact special points for morse, exp_spline, sqrt; relations buck - bornmayer = -C/r^6, bornmayer functional equation, morse = D(b^2-2b), exp_spline - C = exp(q); every case through f(r,p), factory(p)(r), 'as.NAME p' in [Pair] and as.NAME(r,p) in a formula, in a fresh process (ascending then descending polynomial orders).",
+   note="Not decided: closed-form values of zbl (general Z) and tang_toennies - only route agreement and derivative/energy consistency; exp() itself is trusted to libm."),
+ "C07": dict(engine="algebra", design="5 C07", technique="TLA+ jet semantics of the definition language (PotExpr.tla: exact value/first/second derivative by sum, Leibniz, power, shift and range-selection rules; Offers; analytic vs numeric source) computed by TLC for every definition of the grammar; replayed on the real callables (.deriv/.deriv2 presence and values, Potential.force); Builtin.tla exact derivatives and differential relations for the leaves",
+   text="For every definition of depth <=1 (exhaustive, ~1.2k) and depth 2 (TLC simulation) over analytic and non-analytic leaves: hasattr(.deriv/.deriv2) = Offers, offered values = exact derivatives (1e-9 for analytic subtrees; 1e-6 / 2e-3 only where a numerically differentiated component is involved), force = -slope; leaves: exact derivatives of the rational forms at rational points incl. r=0, V'=-V/rho etc. for bornmayer/buck/morse/sqrt/exp_spline (C != 0), finite-difference consistency for zbl and tang_toennies.",
+   note="Not asserted on range boundaries nor where the implemented power rule takes log of a non-positive value. zbl / tang_toennies derivative formulas only against finite differences (1e-6). Defect F18 repaired. Table-form and spline derivatives: see C18 / C10."),
+ "C09": dict(engine="algebra", design="5 C09", technique="TLA+ denotational semantics of the model language (PotExpr.tla) and of custom formulas (FormEval.tla: per-form mutable symbol tables threaded through the evaluation vs substitution, from arbitrary initial tables; pymath identity table) checked / computed by TLC; every definition and program replayed through Configuration.read under surface variants, in five section kinds, and against the Python-API composition",
+   text="Definitions: exact pointwise value of sum/product/pow/trans/multi-range nestings (implicit '>0' around every modifier argument) vs tabulation.potentials[i].energy, in [Pair], [EAM-Embed], [EAM-Density] (both kinds) and [EAM-ADP-Dipole], 12 surface styles (':' '=', whitespace, continuation lines, entry and section order), equality with plus/product/pow/Multi_Range composition. Formulas: ImplIsSubstitution for all 360 acyclic 3-form programs and the mutually recursive one; each program evaluated for every (form, argument, r) twice in shuffled orders; calls of as.* and pymath.* inside formulas; 122 exact pymath identities.",
+   note="Defect F14 (re-entrant custom forms) repaired; the model without save/restore is kept as FormEval_cyclic_unrepaired.cfg and must violate ImplIsSubstitution."),
  "C08": dict(engine="multirange", design="5 C08", technique="TLA+ transcription of the sorted setter and the _range_search loop (MultiRange.tla) checked by TLC against the declarative Allowed set for every listing; every listing replayed on Multi_Range_Potential_Form* (API and potable text) with range-identifying sub-potentials, four query orders per object",
    text="TLC proves, for every listing of <=3 (quick) / <=5 (thorough) ranges over {>,>=} x 4 starts and 9 query points, that the transcribed algorithm selects an allowed range, is listing-order independent and returns the default only below the first range; the replay checks the real class against the TLC-emitted allowed sets for value, deriv and deriv2 (same range), across evaluation histories on one object, across all listings of one multiset, and API vs potable text incl. the implicit '>0'.",
    note="Tie above a start shared by '>' and '>=': either range accepted (the suite pins the exclusive one); identical (marker,start) duplicates excluded from order independence (DESIGN C08)."),
@@ -86,6 +95,8 @@ NA = {}
 ENGINES = {
  "layout": "TLC on spec/Layout.tla (writer step machines x consumer models x fault model) + replay of every emitted case through the real code",
  "multirange": "TLC on spec/MultiRange.tla + replay of every listing on the real multi-range classes",
+ "forms": "TLC on spec/Builtin.tla + replay through the four access routes in a fresh process",
+ "algebra": "TLC on spec/PotExpr.tla and spec/FormEval.tla (+ Builtin.tla for leaf derivatives) + replay of every definition / program on the real registry, builders and combinators",
  "inidoc": "TLC on spec/IniDoc.tla / Vars.tla / Views.tla + replay of every emitted case through potable and the ConfigParser API against the hand-edited file",
  "grid": "TLC on spec/Grid.tla + replay of the decision table and decimal lattice on the real parser and written tables",
 }
